@@ -168,7 +168,15 @@ func createMethodMatcher(methods []string) (methodMatcher, error) {
 	methods = slicex.Subtract(methods, tbr)
 	tbr = slicex.Map[string, string](tbr, func(s string) string { return strings.TrimPrefix(s, "!") })
 
-	return slicex.Subtract(methods, tbr), nil
+	methods = slicex.Subtract(methods, tbr)
+	if len(methods) == 0 {
+		// an empty matcher matches every method, also those which have been explicitly excluded
+		return nil, errorchain.NewWithMessage(heimdall.ErrConfiguration,
+			"methods list does not allow any method. "+
+				"have you forgotten to specify ALL in addition to the methods to exclude?")
+	}
+
+	return methods, nil
 }
 
 func createHostMatcher(hosts []config.HostMatcher) (RouteMatcher, error) {
